@@ -88,3 +88,85 @@ CHECKS["C03"] = dict(
     assumptions=["two variables v, w each absent or of any type; strings of 0..2 arbitrary bytes; doubles unrestricted; operator code any int",
                  "host storers that violate the Storer contract are outside the claim"],
 )
+
+# ---------------------------------------------------------------- runner state space (C01, C06, C11, C12)
+def _world(h, **params):
+    w = params.pop("workers", 8)
+    mr = params.pop("must_reach", [])
+    return inst("root", h, params, workers=w, must_reach=mr, solver="z3")
+
+_STEP_REACH = ["yield-line", "yield-options", "end", "fail", "pending", "jumped"]
+CHECKS["C01"] = dict(
+    level="model_checking",
+    claim="Inductive step on the real DialogueRunner.Next: from every runner state in the bounded state space (continuation stack of the listed "
+          "depth/queue lengths with every pointer position incl. exhausted queues, last statement nil/line/other/option group with the chosen "
+          "body of length 0..2, symbolic store, node and choice) with a head statement of every kind, the returned element, its node, the "
+          "flattened continuation, the waiting flag and handler/function invocation counts equal those of a reference big-step semantics on the "
+          "flattened continuation; a symbolic choice leaves all of it unchanged when the pre-state is not waiting.",
+    note="Text -> token stream -> parse tree (ANTLR) is outside the claim; the listener side is checked on synthesised parse-tree events where "
+         "built. The step from 'every Next from every invariant state' to 'every run' is a paper argument (Next's recursion re-enters as a fresh "
+         "call because lastStatement is overwritten first).",
+    instances=dict(
+        quick=[_world("VHNextStep", DEPTH=2, QLEN=1, BUDGET=1, VISCFG=1, must_reach=_STEP_REACH),
+               _world("VHNextStep", DEPTH=1, QLEN=2, BUDGET=1, VISCFG=1, must_reach=_STEP_REACH)],
+        thorough=[_world("VHNextStep", DEPTH=3, QLEN=2, BUDGET=1, VISCFG=1, workers=16, must_reach=_STEP_REACH),
+                  _world("VHNextStep", DEPTH=1, QLEN=2, BUDGET=1, VISCFG=1, SECOND=1, workers=16, must_reach=_STEP_REACH),
+                  _world("VHNextStep", DEPTH=1, QLEN=1, BUDGET=2, VISCFG=1, CLAUSES=1, workers=16, must_reach=_STEP_REACH)]),
+    assumptions=["three nodes of opaque lines; statements other than the head (and optionally its successor) are opaque distinct lines",
+                 "choice in range when the pre-state waits for a choice (as the property requires), unconstrained otherwise",
+                 "line texts are free of markup characters"],
+)
+CHECKS["C11"] = dict(
+    level="model_checking",
+    claim="Same inductive step as C01 with the visit map symbolic (three presence configurations, counts >= 1 symbolic) and each node's tracking "
+          "header a symbolic 5-byte string: after one Next the count of every node equals its old count plus the number of successful jumps that "
+          "left it, unless its header is exactly `never`; non-nodes are never counted; visited/visited_count (through the real reflection bridge) "
+          "report the map.",
+    note="Counts adopted from a host-fabricated snapshot containing zero entries are outside the claim.",
+    instances=dict(
+        quick=[_world("VHNextStep", DEPTH=1, QLEN=1, BUDGET=1, HEAD=100, must_reach=["jumped", "fail"]),
+               _world("VHVisitedFns", DEPTH=1, QLEN=1, HEAD=100, must_reach=["visited-fn", "never-tracked", "jumped"])],
+        thorough=[_world("VHNextStep", DEPTH=2, QLEN=2, BUDGET=1, HEAD=100, workers=16, must_reach=["jumped", "fail"]),
+                  _world("VHNextStep", DEPTH=1, QLEN=2, BUDGET=1, workers=16, must_reach=["jumped", "fail"]),
+                  _world("VHVisitedFns", DEPTH=2, QLEN=1, HEAD=100, workers=16, must_reach=["visited-fn", "never-tracked", "jumped"])]),
+    assumptions=["visit-map invariant: present keys are node titles with count in [1, 2^40)"],
+)
+CHECKS["C12"] = dict(
+    level="model_checking",
+    claim="From every state of the C01 state space, one Next; on every path where it reports the end (running off the continuation, <<stop>> "
+          "with statements still queued, an empty option body chosen), two further Next calls with arbitrary 64-bit arguments must report "
+          "the end again, must not panic, and must leave store, visit counts and handler/function logs unchanged.",
+    note="The end states are those the real code produces from the state space, not hand-picked.",
+    instances=dict(
+        quick=[_world("VHEndAbsorbing", DEPTH=1, QLEN=2, BUDGET=1, VISCFG=1, must_reach=["ended"]),
+               _world("VHEndAbsorbing", DEPTH=2, QLEN=1, BUDGET=1, VISCFG=1, must_reach=["ended"])],
+        thorough=[_world("VHEndAbsorbing", DEPTH=3, QLEN=2, BUDGET=1, VISCFG=1, workers=16, must_reach=["ended"]),
+                  _world("VHEndAbsorbing", DEPTH=1, QLEN=2, BUDGET=1, VISCFG=1, SECOND=1, workers=16, must_reach=["ended"])]),
+    assumptions=["as C01"],
+)
+_c06_b = [inst("root", "VHBuiltinsDomain", {"FN": f}, solver="cvc5", workers=2, must_reach=["called"]) for f in range(15)]
+CHECKS["C06"] = dict(
+    level="model_checking",
+    claim="No panic path is feasible: (1) one Next from every state of the C01 state space whose head may also be ill-typed, reference unknown "
+          "variables/nodes/functions/commands, carry a nil or empty expression (the AST left by `null`) or use a value-less function as a value, "
+          "followed by a second Next; (2) every built-in called by name through the real table and reflection bridge with 0..3 arguments of "
+          "every kind, numbers ranging over all doubles (0, negatives, non-integers, +-Inf, NaN, beyond int64).",
+    note="Panics inside ANTLR are outside the claim; reflect behaves as the engine's go/types-based intrinsics say; rand.Intn by contract (panics iff n <= 0).",
+    instances=dict(
+        quick=[_world("VHNextFaults", DEPTH=1, QLEN=1, BUDGET=1, VISCFG=1, workers=12, must_reach=["fail", "error-then-next"])] + _c06_b,
+        thorough=[_world("VHNextFaults", DEPTH=2, QLEN=2, BUDGET=1, VISCFG=1, workers=16, must_reach=["fail", "error-then-next"]),
+                  _world("VHNextFaults", DEPTH=1, QLEN=1, BUDGET=2, VISCFG=1, CLAUSES=1, workers=16, must_reach=["fail", "error-then-next"])] + _c06_b),
+    assumptions=["in-range choices (as the property requires)", "float->int conversion of out-of-range values as on amd64"],
+)
+CHECKS["C09"] = dict(
+    level="model_checking",
+    claim="Range part: for every seed of 1..3 bytes and every value math/rand may return by contract, dice(n) is in [1,n] and errs exactly for "
+          "n < 1, random_range(a,b) is in [a,b] for every representable non-empty range and errs on empty ones, random() is in [0,1) "
+          "(64-bit integer obligations on the functions the built-in table registers). Determinism part: two runners from the same state and "
+          "seed with independent environment nondeterminism agree (see instances).",
+    note="The bit-for-bit stream of math/rand for a seed is the stdlib's contract (uninterpreted function of seed, call index and bound).",
+    instances=dict(
+        quick=[inst("root", "VHRandomContracts", solver="z3", workers=8, must_reach=["dice", "random_range", "random"])],
+        thorough=[inst("root", "VHRandomContracts", solver="z3", workers=8, must_reach=["dice", "random_range", "random"])]),
+    assumptions=["seed strings of 1..3 arbitrary bytes"],
+)
